@@ -292,9 +292,20 @@ fn spawn_async_ao_list_in_task<'a, SE: extensions::ShellExtensions>(
     }
 
     let join_handle = tokio::spawn(async move {
-        cloned_ao_list
+        match cloned_ao_list
             .execute(&mut cloned_shell, &cloned_params)
             .await
+        {
+            Ok(result) => Ok(result),
+            Err(err) => {
+                // An error that ends the job is the job's own: report it where the job ran and
+                // let the job finish with a failure status. It must not surface in whoever
+                // waits for the job (and end that `wait` early).
+                let mut stderr = cloned_params.stderr(&cloned_shell);
+                let _ = cloned_shell.display_error(&mut stderr, &err);
+                Ok(ExecutionResult::general_error())
+            }
+        }
     });
 
     shell.jobs_mut().add_as_current(jobs::Job::new(
